@@ -15,7 +15,7 @@ answering `false`. -/
 theorem no_consent_is_error (p : Nat) (cb : Option Bool) (hcb : cb ≠ some true)
     (proc : σ → Nat → Bytes → PRes σ) (st st' : RSt σ) (A : List Bytes) (m x : Bytes) (rest : List Bytes)
     (hA : scan p cb proc st A = .ok (st', 0)) (hm : isMarker m = true) (hx : isMarker x = false) :
-    scan p cb proc st (A ++ m :: x :: rest) = .error .corrupt := by
+    scan p cb proc st (A ++ m :: x :: rest) = .error (.corrupt st'.ps) := by
   obtain ⟨_, hX⟩ := scan_split p cb proc st A st' 0 hA
   rw [hX]
   simp only [Nat.sub_zero, List.drop_length, List.nil_append]
